@@ -78,6 +78,8 @@ pub struct Trace {
     pub abort: Option<Abort>,
     /// number of parallel calls that were actually scheduled (>= min_items, not nested)
     pub par_calls: usize,
+    /// largest number of tasks of one scheduled parallel call
+    pub max_items: usize,
     /// number of `point` calls reached by workers
     pub points: usize,
     /// set when the replay prefix asked for an alternative that did not exist (the program under
@@ -513,6 +515,7 @@ pub fn run(n: usize, body: &(dyn Fn(usize) + Sync)) {
             resume_unwind(Box::new(AbortToken));
         }
         g.trace.par_calls += 1;
+        g.trace.max_items = g.trace.max_items.max(n);
         g.remaining = (0..n).collect();
         g.w = vec![WStatus::Fresh; nw];
         g.blocked = vec![false; nw];
